@@ -40,6 +40,10 @@ Judge(c) ==
       args |-> {<<n, kindOf(n)>> : n \in argbad},
       ov |-> {n \in both : obs[n].ov # (n \in cfg.data)},
       round |-> {<<n, kindOf(n)>> : n \in {n \in both : obs[n].round # all[n].round}},
+      aggs |-> {<<n, all[n].kind, all[n].src, IF n \in DOMAIN parts.pid THEN CHOOSE a \in all[n].args \ {all[n].src, "p_id"} : TRUE ELSE GroupIdOf(n)>> :
+                  n \in {m \in DOMAIN all \ cfg.data : all[m].kind \notin {"rule", "time", "grouping"}}},
+      times |-> {<<n, all[n].src, all[n].conv[1], all[n].conv[2]>> : n \in {m \in DOMAIN all \ cfg.data : all[m].kind = "time"}},
+      rounded |-> {<<n, all[n].round>> : n \in {m \in DOMAIN all \ cfg.data : all[m].round # ""}},
       kinds |-> [k \in {all[n].kind : n \in DOMAIN all} |-> Cardinality({n \in DOMAIN all : all[n].kind = k})]]
 
 Init == l = 1 /\ out = <<>>
